@@ -104,6 +104,20 @@ def check_selection(seed, n_cases, n_max=4, debug=False):
     """C12 (and C13 when debug nodes are generated): executor(target, exclude, root) runs exactly the closure"""
     rnd = random.Random(seed)
     viol, cases = [], 0
+    if not debug:
+        # deterministic: a chain a -> b -> c (+ an independent d) stored in EVERY order in the node table; the closure of
+        # root / excluded nodes is a reachability, whatever the storage order (a composed DAG appends its inputs last)
+        import itertools
+
+        for perm in itertools.permutations(["a", "b", "c", "d"]):
+            for R, X in ((["a"], None), (None, ["a"]), (["a", "d"], ["b"])):
+                cw = World([dict(id="a", deps=[], prio=0, seq=False, res="thread"), dict(id="b", deps=[("a", [])], prio=0, seq=False, res="thread"),
+                            dict(id="c", deps=[("b", [])], prio=0, seq=False, res="thread"), dict(id="d", deps=[], prio=0, seq=False, res="thread")])
+                cw.insert_order = list(perm)
+                cases += 1
+                v = one_selection(cw, R, X, None, False, False)
+                if v:
+                    viol.append(dict(kind="history", check="selection", seed=seed, index=-cases, world=cw.describe(), insert_order=list(perm), R=R, X=X, T=None, flag=False, violations=v))
     for idx in range(n_cases):
         w = rand_world(rnd, rnd.randint(2, n_max), debug_p=0.35 if debug else 0.0, tags=True)
         ids = list(w.order)
@@ -121,6 +135,9 @@ def check_selection(seed, n_cases, n_max=4, debug=False):
             if cand:
                 T, R, X, flag = [rnd.choice(cand)[0]], None, None, True
         cases += 1
+        if rnd.random() < 0.3:
+            # the node table need not be stored in dependency order (a composed DAG appends its inputs last)
+            w.insert_order = rnd.sample(w.order, len(w.order))
         by_ref = rnd.random() < 0.3
         if by_ref:
             # node REFERENCES as aliases; a tag spelled like the id of another node must not matter for a reference
@@ -228,8 +245,8 @@ def check_setup_histories(seed, n_cases, n_max=4, length=5):
         is_async = rnd.random() < 0.3
         hist = []
         for _ in range(length):
-            op = rnd.choice(["call", "exec", "setup", "setup_sel", "deepcopy", "exec_setup_root", "setup_excl"])
-            if op in ("exec", "setup_sel"):
+            op = rnd.choice(["call", "exec", "setup", "setup_sel", "deepcopy", "exec_setup_root", "setup_excl", "exec_make", "exec_run"])
+            if op in ("exec", "setup_sel", "exec_make"):
                 hist.append((op, rnd.sample(w.order, rnd.randint(1, min(2, len(w.order))))))
             elif op == "exec_setup_root":
                 # only roots whose selection is closed under the dependencies of its setup nodes: a root-restricted run
@@ -265,6 +282,7 @@ def one_setup_history(w, hist, is_async):
 
     aw = (lambda c: asyncio.run(c)) if is_async else (lambda c: c)
     val, _ = reference(w)
+    pending = None
     for op, arg in hist:
         before = dict(w.calls)
         if op == "call":
@@ -286,6 +304,20 @@ def one_setup_history(w, hist, is_async):
             need = anc_closure(w, arg) & sids
             if set(w.calls) - need:
                 v.append(f"setup(target_nodes={arg}) ran {sorted(set(w.calls) - need)} beyond the needed setup nodes {sorted(need)}")
+        elif op == "exec_make":
+            # an executor created now and run LATER (after other operations may have run setup nodes)
+            pending = (dag.executor(target_nodes=arg), arg, inst["cur"])
+            continue
+        elif op == "exec_run":
+            if pending is None or pending[2] != inst["cur"]:
+                continue
+            ex_, arg_, _ = pending
+            pending = None
+            out = run(lambda: aw(ex_()))
+            need = anc_closure(w, arg_)
+            ran_setup = {n for n in w.calls if n in sids}
+            if not ran_setup <= need:
+                v.append(f"executor(target_nodes={arg_}) created earlier ran setup nodes {sorted(ran_setup - need)} it does not need")
         elif op == "exec_setup_root":
             # the setup() of an executor restricted by root_nodes runs only setup nodes of the executor's selection
             out = run(lambda: aw(dag.executor(root_nodes=arg).setup()))
@@ -398,8 +430,10 @@ def check_cache(seed, n_cases, n_max=4):
     try:
         for idx in range(n_cases):
             w = rand_world(rnd, rnd.randint(2, n_max), setup_p=0.2)
-            mode = rnd.choice(["whole", "target", "deps_of"])
+            mode = rnd.choice(["whole", "target", "deps_of", "deps_of"])
             pick = rnd.choice(w.order)
+            if mode == "deps_of" and len(w.order) >= 2 and rnd.random() < 0.5:
+                pick = rnd.sample(w.order, 2)  # several aliases, one may feed the other
             cases += 1
             v = one_cache(w, mode, pick, os.path.join(tmp, f"c{idx}.pkl"))
             if v:
@@ -416,7 +450,8 @@ def one_cache(w, mode, pick, path):
 
     v = []
     dag = w.build_dag()
-    kw = {"whole": {}, "target": {"target_nodes": [pick]}, "deps_of": {"cache_deps_of": [pick]}}[mode]
+    picks = pick if isinstance(pick, list) else [pick]
+    kw = {"whole": {}, "target": {"target_nodes": picks}, "deps_of": {"cache_deps_of": picks}}[mode]
     ex = dag.executor(cache_in=path, **kw)
     w.calls = {}
     o1, _ = run_controlled(lambda: ex(), w)
@@ -425,11 +460,11 @@ def one_cache(w, mode, pick, path):
     ran1 = set(w.calls)
     content = pickle.load(open(path, "rb"))
     if mode == "deps_of":
-        need = anc_closure(w, [pick]) - {pick}
-        if pick in content:
-            v.append(f"cache_deps_of=[{pick}]: the file holds {pick}'s own result")
+        need = anc_closure(w, picks) - set(picks)
+        if set(picks) & set(content):
+            v.append(f"cache_deps_of={picks}: the file holds the own result of {sorted(set(picks) & set(content))}")
         if not need <= set(content):
-            v.append(f"cache_deps_of=[{pick}]: the file misses dependencies {sorted(need - set(content))}")
+            v.append(f"cache_deps_of={picks}: the file misses dependencies {sorted(need - set(content))}")
     # restart on a FRESH instance of the same DAG (new process in real life)
     w2 = World([dict(n) for n in w.nodes.values()], w.max_concurrency)
     dag2 = w2.build_dag()
@@ -443,8 +478,8 @@ def one_cache(w, mode, pick, path):
     reran = {n for n in w2.calls if n in content}
     if reran:
         v.append(f"restart executed {sorted(reran)} whose results are in the cache file")
-    if mode == "deps_of" and set(w2.calls) - {pick}:
-        v.append(f"restart from cache_deps_of=[{pick}] executed {sorted(w2.calls)} instead of {pick} only")
+    if mode == "deps_of" and set(w2.calls) != set(picks):
+        v.append(f"restart from cache_deps_of={picks} executed {sorted(w2.calls)} instead of exactly {sorted(picks)}")
     # a second caching run overwrites the file; a later restart must see the new content
     w.nodes[w.order[0]]["value"] = ("changed",)
     dag3 = w.build_dag()
@@ -464,7 +499,7 @@ def check_compose(seed, n_cases, n_max=4):
     rnd = random.Random(seed)
     viol, cases = [], 0
     for idx in range(n_cases):
-        w = rand_world(rnd, rnd.randint(2, n_max))
+        w = rand_world(rnd, rnd.randint(2, n_max), setup_p=0.3 if idx % 3 == 0 else 0.0)
         # make some references keyed / keyword / activation so that every kind of reference is rewired
         for nid in w.order:
             nd = w.nodes[nid]
@@ -494,13 +529,34 @@ def check_compose(seed, n_cases, n_max=4):
     return viol, cases
 
 
+def _same_outcome(a, b):
+    if a[0] != b[0]:
+        return False
+    if a[0] == "return":
+        return a[1] == b[1]
+    return type(a[1]) is type(b[1]) and str(a[1]) == str(b[1])  # two raises: same exception type and message
+
+
+def _original_unchanged(w, dag, before):
+    w.calls = {}
+    after, _ = run_controlled(lambda: dag(), w)
+    if not _same_outcome(after, before):
+        return [f"[C15] the original DAG changed behaviour after a REFUSED compose: {before!r} -> {after!r}", f"[C19] the original DAG changed behaviour after a refused compose: {before!r} -> {after!r}"]
+    return []
+
+
 def one_compose(w, ins, outs):
     import warnings
 
     v = []
     dag = w.build_dag()
-    val0, _ = reference(w)
-    before, _ = run_controlled(lambda: dag(), w)
+    val0, st0 = reference(w)
+    if "__kf_index__" in st0 or len(ins) + len(outs) % 2 == 0:
+        before, _ = run_controlled(lambda: dag(), w)
+    else:
+        # compose BEFORE the original has ever run (its setup nodes have no result yet): the original must afterwards
+        # still compute what its description says
+        before = ("return", tuple(val0[i] for i in w.order))
     # expected errors: an input that depends on another input
     bad = any(i in anc_closure(w, [j]) - {j} for i in ins for j in ins if i != j)
     supplied = {i: {"id": i, "args": ["SUPPLIED"], "t": True, "f": False, "k": {"t": True, "f": False}} for i in ins}
@@ -511,9 +567,16 @@ def one_compose(w, ins, outs):
     except ValueError:
         if not bad:
             v.append(f"compose({ins}, {outs}) raised ValueError for a legal composition")
-        return v
+        return v + _original_unchanged(w, dag, before)
     except KeyError as e:
         return [f"compose({ins}, {outs}) raised KeyError {e}"]
+    except BaseException as e:  # noqa: BLE001
+        from tawazi.errors import TawaziUsageError
+
+        if isinstance(e, TawaziUsageError):
+            # a setup node of the composition would depend on one of its inputs: a refusal -- which must not have touched the original
+            return v + _original_unchanged(w, dag, before)
+        raise
     if bad:
         return [f"compose({ins}, {outs}) accepted an input that depends on another input"]
     # reference: evaluate the original description with the inputs' values replaced
@@ -537,7 +600,7 @@ def one_compose(w, ins, outs):
     if not ran <= need:
         v.append(f"composed DAG ran {sorted(ran - need)} which the outputs do not need")
     after, _ = run_controlled(lambda: dag(), w)
-    if after != before and not (after[0] == before[0] == "return" and after[1] == before[1]):
+    if not _same_outcome(after, before):
         v.append(f"the original DAG changed behaviour after compose: {before!r} -> {after!r}")
     return v
 
